@@ -74,8 +74,8 @@ def plain(module, source, fn, **kw):
 
 def c01(tier, seed):
     out = []
-    quick_static = list(range(0, 9))
-    quick_dyn = [0, 3, 6, 7]
+    quick_static = list(range(0, 11))
+    quick_dyn = [0, 3, 6, 7, 9]
     # the seed rotates one extra dynamic size into the quick tier
     extra = [1, 2, 4, 5, 8][seed % 5]
     quick_dyn = sorted(set(quick_dyn + [extra]))
@@ -137,6 +137,31 @@ def c03(tier, seed):
                                 covers=covers, optional=(n >= 12 or (n >= 11 and op in ("swap", "swap_adjacent"))),
                                 what="%s on %s n=%d: symbolic table, symbolic index(es) < n, symbolic assignment m; result bit m equals the defining source bit; wf; in-place == copying"
                                      % (op, tname, n)))
+    # large tables: concrete indices (quick: a few at n = 9, 10; thorough: every index / representative pairs up to n = 12)
+    for kind in ("s", "d"):
+        tname = "LutN" if kind == "s" else "Lut"
+        for n in range(9, 13):
+            fam = fam_name(kind, n)
+            u = T(n) + 2
+            idx = list(range(n))
+            pairs = sorted(set([(i, i + 1) for i in range(n - 1)] + [(0, n - 1), (5, 6), (5, n - 1), (2, 7), (6, n - 1), (7, n - 2), (3, 4), (0, 5)]))
+            quick_idx = {9: list(range(9)), 10: list(range(10)), 11: [8, 10], 12: [8, 11]}[n] if kind == "s" else ({10: [8], 12: [7]}.get(n, []))
+            quick_pairs = ({9: pairs, 10: pairs, 11: [(8, 9), (5, 10)], 12: [(10, 11), (6, 11)]}[n]) if kind == "s" else ([(5, 6)] if n == 10 else [])
+            for op, oname in ((0, "flip"), (1, "cofactors"), (2, "from_cofactors")):
+                for i in idx:
+                    q = i in quick_idx
+                    if kind == "d" and not q and i not in (0, 6, n - 2, n - 1):
+                        continue
+                    out.append(spec("verif_c03", "c03.rs", "c03_fixed", "c03_%s_%s_i%d" % (oname, fam, i), [fam, op, i, 0], u,
+                                    tier="quick" if q else "thorough", n=n, fam=fam, mem=mem_for(n, 0.5), timeout=2400,
+                                    what="%s(%d) on %s n=%d (concrete index, symbolic table and assignment): result bit m equals the defining source bit; in-place == copying; recomposition" % (oname, i, tname, n)))
+            for (i, j) in pairs:
+                q = (i, j) in quick_pairs
+                if kind == "d" and (i, j) not in [(5, 6), (0, n - 1), (n - 2, n - 1)]:
+                    continue
+                out.append(spec("verif_c03", "c03.rs", "c03_fixed", "c03_swap_%s_i%d_j%d" % (fam, i, j), [fam, 3, i, j], u,
+                                tier="quick" if q else "thorough", n=n, fam=fam, mem=mem_for(n, 0.5), timeout=2400,
+                                what="swap(%d,%d) on %s n=%d (concrete indices, symbolic table and assignment): result bit m equals f(m with bits exchanged); symmetric in the arguments; in-place == copying; swap_adjacent when adjacent" % (i, j, tname, n)))
     return out
 
 
@@ -388,16 +413,20 @@ def c06(tier, seed):
                                 tier="quick" if q else "thorough", n=n, fam=fam, mem=mem_for(n, 1.5),
                                 timeout=1200 if n <= 8 else 3000, optional=(n >= 10), covers=covers,
                                 what="%s n=%d: top_decomposition(v), is_pos_unate(v), is_neg_unate(v) EQUAL the class / facts derived from the cofactors by the property's priority order; symbolic table and v" % (tname, n)))
-            else:
-                for v in sorted(set([0, 5, 6, n - 1])):
+            if n >= 9:
+                for v in range(n):
+                    qv = (kind == "s" and (n <= 10 or (n == 11 and v in (8, 10)) or (n == 12 and v in (8, 11)))) or (kind == "d" and n == 10 and v == 8)
+                    if kind == "d" and v not in (0, 6, 8, n - 1):
+                        continue
                     out.append(spec("verif_c06", "c06.rs", "c06_main_v", "c06_main_%s_v%d" % (fam, v), [fam, v], T(n) + 2,
-                                    tier="thorough", n=n, fam=fam, mem=mem_for(n), timeout=3000, optional=True,
+                                    tier="quick" if qv else "thorough", n=n, fam=fam, mem=mem_for(n, 0.5), timeout=3000,
                                     covers={"reached": "SATISFIED", "None": "SATISFIED", "Xor": "SATISFIED"},
-                                    what="%s n=%d, concrete v=%d: classification equals the cofactor-derived class" % (tname, n, v)))
-    for n in (11, 12):
-        for v in sorted(set([0, 5, 6, n - 1])):
+                                    what="%s n=%d, concrete v=%d, symbolic table: top_decomposition / unateness EQUAL the cofactor-derived class and facts" % (tname, n, v)))
+    for n in (9, 10, 11, 12):
+        for v in range(n):
+            qv = n <= 10 or (n == 11 and v in (8, 10)) or (n == 12 and v in (8, 11))
             out.append(spec("verif_c06", "c06.rs", "c06_lemma_h_v", "c06_lemma_h_%d_v%d" % (n, v), [n, T(n), v], T(n) + 2,
-                            tier="thorough", n=n, fam="harness-oracle", mem=mem_for(n), timeout=3000, optional=True,
+                            tier="quick" if qv else "thorough", n=n, fam="harness-oracle", mem=mem_for(n, 0.5), timeout=3000,
                             what="lemma H n=%d, concrete v=%d" % (n, v)))
     return out
 
@@ -725,15 +754,21 @@ def c04_stubbed(prop):
         t = T(n)
         u = max(8 * t, n) + 3
         tr = "quick" if q else "thorough"
-        out.append(spec("verif_k04", "c04.rs+k04.rs", "k04_walk_p", "k04_walk_p_%d" % n, [n, t], u,
-                        tier=tr, n=n, fam="kernel", level="kernel", mem=mem_for(n, 2), timeout=3000, role="walk_p",
-                        covers={"reached": "SATISFIED", "no candidate improves": "SATISFIED", "second candidate is the best": "SATISFIED" if n >= 3 else "UNSAT"},
-                        what="L1 walk lemma P n=%d: p_canonization_ind over an ARBITRARY swap sequence of length <= 2 on a symbolic table: final table, best = min(input, candidates), index of the first strict improvement; p_canonization_res decodes it into a permutation mapping the input to best (pointwise on a symbolic assignment), including 'no candidate improves'" % n))
-        out.append(spec("verif_k04", "c04.rs+k04.rs", "k04_walk_n", "k04_walk_n_%d" % n, [n, t], u,
-                        tier=tr, n=n, fam="kernel", level="kernel", mem=mem_for(n, 2), timeout=3000, role="walk_n",
-                        covers={"reached": "SATISFIED", "no candidate improves": "SATISFIED",
-                                "complemented candidate after the second flip is the best": "SATISFIED"},
-                        what="L1 walk lemma N n=%d: n_canonization_ind / n_canonization_res over an ARBITRARY flip sequence of length <= 2 (both output polarities after each flip)" % n))
+        for maxlen in ((2,) if n < 8 else (1, 2)):
+            tr2 = tr
+            sfx = "" if maxlen == 2 else "_len1"
+            out.append(spec("verif_k04", "c04.rs+k04.rs", "k04_walk_p", "k04_walk_p_%d%s" % (n, sfx), [n, t, maxlen], u,
+                            tier=tr2, n=n, fam="kernel", level="kernel", mem=mem_for(n, 2), timeout=3000, role="walk_p",
+                            optional=(n >= 8 and maxlen == 2),
+                            covers={"reached": "SATISFIED", "no candidate improves": "SATISFIED",
+                                    "last candidate is the best": "SATISFIED" if (n >= 3 or maxlen == 1) else "UNSAT"},
+                            what="L1 walk lemma P n=%d: p_canonization_ind over an ARBITRARY swap sequence of length <= %d on a symbolic table: final table, best = min(input, candidates), index of the first strict improvement; p_canonization_res decodes it into a permutation mapping the input to best (pointwise on a symbolic assignment), including 'no candidate improves'" % (n, maxlen)))
+            out.append(spec("verif_k04", "c04.rs+k04.rs", "k04_walk_n", "k04_walk_n_%d%s" % (n, sfx), [n, t, maxlen], u,
+                            tier=tr2, n=n, fam="kernel", level="kernel", mem=mem_for(n, 2), timeout=3000, role="walk_n",
+                            optional=(n >= 8 and maxlen == 2),
+                            covers={"reached": "SATISFIED", "no candidate improves": "SATISFIED",
+                                    "complemented candidate after the last flip is the best": "SATISFIED"},
+                            what="L1 walk lemma N n=%d: n_canonization_ind / n_canonization_res over an ARBITRARY flip sequence of length <= %d (both output polarities after each flip)" % (n, maxlen)))
         for (sl, fl_, closed) in ((1, 1, False), (1, 2, False), (2, 2, True)):
             out.append(spec("verif_k04", "c04.rs+k04.rs", "k04_walk_npn", "k04_walk_npn_%d_%dx%d%s" % (n, sl, fl_, "c" if closed else ""),
                             [n, t, sl, fl_, "true" if closed else "false"], u,
@@ -742,6 +777,15 @@ def c04_stubbed(prop):
                             covers={"reached": "SATISFIED", "no candidate improves": "SATISFIED",
                                     "a late candidate is the best": "SATISFIED" if sl * fl_ >= 2 else "UNSAT"},
                             what="L1 walk lemma NPN n=%d, %d swap(s) x %d flip(s)%s with symbolic contents on a symbolic table: final table, best = min(input, candidates), index, and npn_canonization_res decodes it into (perm, mask) mapping the input to best (pointwise)" % (n, sl, fl_, " (closed cycle [v,v])" if closed else "")))
+    # one concrete step on tables of 3+ words (quick-tier stand-in for the symbolic-step lemma at n >= 8)
+    for (n, grp, s0) in ((8, 0, 0), (8, 0, 6), (8, 1, 1), (8, 1, 7), (9, 0, 7), (9, 1, 8)):
+        t = T(n)
+        gname = "p" if grp == 0 else "n"
+        out.append(spec("verif_k04", "c04.rs+k04.rs", "k04_walk_fixed", "k04_walk_fixed_%s_%d_%d" % (gname, n, s0), [n, t, grp, s0], max(8 * t, n) + 3,
+                        tier="quick", n=n, fam="kernel", level="kernel", mem=mem_for(n, 2), timeout=3000, role="walk_%s" % gname,
+                        covers={"reached": "SATISFIED", ("P: no candidate improves" if grp == 0 else "N: no candidate improves"): "SATISFIED",
+                                ("P: the candidate improves" if grp == 0 else "N: the uncomplemented candidate improves"): "SATISFIED"},
+                        what="L1 walk lemma %s n=%d with the CONCRETE one-step sequence [%d] on a symbolic %d-word table: final table, best = min(input, candidates) in the library order, index, decoded certificate pointwise" % (gname.upper(), n, s0, t)))
     for t in (1, 2, 4):
         out.append(spec("verif_k04", "c04.rs+k04.rs", "k04_cmp_equiv", "k04_cmp_equiv_%d" % t, [t], 8 * t + 3,
                         tier="quick", n=None, fam="kernel", level="kernel",
